@@ -1,2 +1,87 @@
-/- Oracle for C08 (stub: replaced when the property's model is built). -/
-def main : IO Unit := pure ()
+/-
+  Oracle for C08.
+    oracle-c08 pairs      verdict of the decision procedure for every pair of BMV.Gen.matchers that
+                          is not `.disjoint` (P i j overlap : <code points> | P i j unknown), then
+                          `PAIRS <n> <bad>`; also the historic pair (OLD ...)
+    oracle-c08            (stdin) W lines -> R <hex> <mask>  (matchStr of every regenerated matcher)
+                                  N lines -> C <hex> ...     (BMV.Numbers import/export model) or U <hex>
+-/
+import BMV.Regex
+import BMV.Numbers
+import BMV.Gen.Matchers
+import BMV.Lines
+open BMV.Regex BMV.Numbers BMV.Lines
+
+def cpsOf (fs : List String) : List Nat := fs.map nat!
+
+def str (w : List Nat) : String := String.ofList (w.map Char.ofNat)
+
+def hexByte (b : Nat) : String :=
+  let d (x : Nat) : Char := Char.ofNat (digitChar x)
+  String.ofList [d (b / 16), d (b % 16)]
+
+def hexBytes (bs : List Nat) : String :=
+  if bs.isEmpty then "-" else String.join (bs.map hexByte)
+
+def tyName : NType → String
+  | .unsigned => "unsigned" | .signed => "signed" | .hex => "hex" | .bin => "bin"
+
+def optS (o : Option (List Nat)) : String :=
+  match o with | some s => str s | none => "!err"
+
+def caseLine (hex : String) (ns : List Nat) (s : List Nat) (spec : Bool) : String :=
+  match importString s with
+  | none => s!"C {hex} imp=err"
+  | some v =>
+    let es := if spec then exportStringSpec v else exportString v
+    let nb := ";".intercalate (ns.map fun k => s!"{k}:{optS (exportBinaryNBits v k)}")
+    let rt := match es with
+      | none => "rt=-"
+      | some e => match importString e with
+        | none => "rt=err"
+        | some m => s!"rt=ok rty={tyName m.ty} rbits={m.bits} rbytes={hexBytes m.bytes}"
+    s!"C {hex} imp=ok ty={tyName v.ty} bits={v.bits} bytes={hexBytes v.bytes} es={optS es} eb={str (exportBinary false v)} ebs={str (exportBinary true v)} vb={str (exportVerilogBinary v)} nb={nb} {rt}"
+
+def step (_ : Unit) (line : String) : Unit × List String :=
+  let fs := fields line
+  match fs with
+  | "W" :: hex :: ":" :: rest =>
+    let s := cpsOf rest
+    let mask := String.ofList (BMV.Gen.matchers.map fun r => if matchStr r s then '1' else '0')
+    ((), [s!"R {hex} {mask}"])
+  | "N" :: hex :: ns :: ":" :: rest =>
+    let s := cpsOf rest
+    match classify s with
+    | .unmodelled => ((), [s!"U {hex}"])
+    | _ =>
+      let nl := (commaList ns).map nat!
+      let l1 := caseLine hex nl s false
+      let isSigned : Bool := match importString s with | some v => v.ty == .signed | none => false
+      if isSigned then ((), [l1, "CF" ++ (caseLine hex nl s true).drop 1]) else ((), [l1])
+  | _ => ((), [])
+
+def cpsStr (w : List Nat) : String := " ".intercalate (w.map fun n => Nat.repr n)
+
+def showVerdict (tag : String) (i j : Nat) (v : Verdict) : String :=
+  match v with
+  | .disjoint => s!"{tag} {i} {j} disjoint"
+  | .overlap w => s!"{tag} {i} {j} overlap : {cpsStr w}"
+  | .unknown => s!"{tag} {i} {j} unknown"
+
+/-- the two pairs that overlapped before the fix 2553f67 (unescaped dot) -/
+def digitR : Regex := .cls false [(48, 57)]
+def oldPlainU : Regex := Regex.seq [Regex.chr 48, Regex.chr 117, Regex.plus digitR]
+def oldDotU : Regex := Regex.seq [Regex.chr 48, Regex.chr 117, Regex.plus digitR, Regex.any, Regex.plus (Regex.chr 48)]
+
+def main (args : List String) : IO UInt32 := do
+  match args with
+  | ["pairs"] =>
+    let bad := allBad 0 BMV.Gen.matchers
+    for (i, j, v) in bad do
+      IO.println (showVerdict "P" i j v)
+    IO.println s!"PAIRS {BMV.Gen.matchers.length} {bad.length}"
+    IO.println (showVerdict "OLD" 0 0 (verdict oldPlainU oldDotU))
+    return 0
+  | _ =>
+    let _ ← foldStdin () step
+    return 0
